@@ -88,6 +88,7 @@ type VC struct {
 	regionHavocOn bool
 	guardsOn  bool
 	inTypeInv bool
+	lastTrigger Term
 	modSet    []modItem
 	merges    map[string][]string // merged reach constant -> its edge conditions
 	rowOf     map[string]Term     // slice term -> its backing array as a value (spec parameters)
